@@ -1654,6 +1654,13 @@ func rulePassUnconditional(r *Run) {
 			if cal.Signature.Results().Len() != 1 || !isStringType(cal.Signature.Results().At(0).Type()) || len(c.Call.Args) < 2 || !isStringType(c.Call.Args[1].Type()) {
 				return
 			}
+			// a step that is handed the template object itself (block definitions, inheritance) is about
+			// the template by construction; the directive passes get text and data only
+			for _, a := range c.Call.Args[1:] {
+				if typeIs(a.Type(), pkgDoc, "Template") {
+					return
+				}
+			}
 			n++
 			bad := ""
 			B := c.Block()
@@ -1665,10 +1672,25 @@ func rulePassUnconditional(r *Run) {
 				if !ok {
 					continue
 				}
+				// a way round the call that still ends in a successful return (an error exit is not a
+				// skipped pass)
 				bypass := false
+				ei := errorResultIndex(fn.Signature)
 				for _, s := range A.Succs {
-					if s != B && !reachableBlocks(s, nil)[B] {
-						bypass = true
+					if s == B {
+						continue
+					}
+					rs := reachableBlocks(s, nil)
+					if rs[B] {
+						continue
+					}
+					for _, ret := range returnsOf(fn) {
+						if !rs[ret.Block()] {
+							continue
+						}
+						if ei < 0 || ei >= len(ret.Results) || isNilConst(ret.Results[ei]) {
+							bypass = true
+						}
 					}
 				}
 				if !bypass {
